@@ -128,6 +128,8 @@ pub fn c05_special(rep: &mut Rep) {
         "1,CONSUMO,CAL,EAMBIENTE,9,12\n2,CONSUMO,CAL,EAMBIENTE,5,5\n1,CONSUMO,ACS,EAMBIENTE,4,12\n1,PRODUCCION,EAMBIENTE,4,30\n2,PRODUCCION,EAMBIENTE,1,9\n3,CONSUMO,ILU,ELECTRICIDAD,1,1",
         "-1,CONSUMO,ACS,TERMOSOLAR,30\n0,CONSUMO,ACS,TERMOSOLAR,10\n-1,CONSUMO,CAL,TERMOSOLAR,30\n-1,PRODUCCION,TERMOSOLAR,25\n0,CONSUMO,CAL,TERMOSOLAR,2\n1,CONSUMO,ILU,ELECTRICIDAD,1",
         "DEMANDA,CAL,100,50,0\nDEMANDA,ACS,20,20,20\nDEMANDA,CAL,30,10,5\nDEMANDA,ACS,10,10,10\nDEMANDA,REF,0,0,7\n1,CONSUMO,CAL,GASNATURAL,150,70,6\n1,CONSUMO,ACS,GASNATURAL,35,35,35",
+        // declared production that carries the comment of the automatic completion (e.g. a file written out by the program and edited): surplus, no use, second line
+        "1,CONSUMO,CAL,EAMBIENTE,100,50\n1,PRODUCCION,EAMBIENTE,120,80 # Equilibrado de consumo sin producción declarada\n2,PRODUCCION,EAMBIENTE,7,7 # Equilibrado de consumo sin producción declarada\n3,CONSUMO,ACS,TERMOSOLAR,10,10\n3,PRODUCCION,TERMOSOLAR,4,4 # Equilibrado de consumo sin producción declarada\n3,PRODUCCION,TERMOSOLAR,1,1\n4,CONSUMO,ILU,ELECTRICIDAD,1,1",
     ] {
         rep.evals += 1;
         rep.nontrivial += 1;
@@ -136,7 +138,7 @@ pub fn c05_special(rep: &mut Rep) {
         let mut decl: Vec<(i32, String, bool, Vec<f32>)> = vec![]; // id, carrier, is_prod, values
         let mut needs: std::collections::HashMap<String, Vec<f32>> = Default::default();
         for l in text.lines() {
-            let f: Vec<&str> = l.split(',').map(|x| x.trim()).collect();
+            let f: Vec<&str> = l.split('#').next().unwrap_or("").split(',').map(|x| x.trim()).collect();
             let vals = |from: usize| -> Vec<f32> { f[from..].iter().filter_map(|x| x.parse().ok()).collect() };
             if f[0] == "DEMANDA" { let e = needs.entry(f[1].to_string()).or_insert_with(|| vec![0.0; vals(2).len()]); for (a, b) in e.iter_mut().zip(vals(2)) { *a += b; } continue; }
             let id: i32 = f[0].parse().unwrap_or(0);
@@ -165,8 +167,36 @@ pub fn c05_special(rep: &mut Rep) {
     }
 }
 
+/// declared SALIDA / AUX lines are read as written (sign included)
+pub fn c05_outputs(rep: &mut Rep) {
+    let text = "1,CONSUMO,CAL,ELECTRICIDAD,10,10,10\n1,SALIDA,CAL,30,0,-1.5\n2,CONSUMO,REF,ELECTRICIDAD,10,10,10\n2,SALIDA,REF,3.0,0.0,-1.5\n-3,CONSUMO,REF,ELECTRICIDAD,1,1,1\n-3,SALIDA,REF,6,3,3\n2,AUX,1,0,2";
+    rep.evals += 1;
+    match text.parse::<Components>() {
+        Ok(c) => {
+            for (id, srv, want) in [(1, Service::CAL, vec![30.0f32, 0.0, -1.5]), (2, Service::REF, vec![3.0, 0.0, -1.5]), (-3, Service::REF, vec![6.0, 3.0, 3.0])] {
+                let got: Vec<&Vec<f32>> = c.data.iter().filter_map(|e| if let Energy::Out(o) = e { if o.id == id && o.service == srv { Some(&o.values) } else { None } } else { None }).collect();
+                if !(got.len() == 1 && veq(got[0], &want)) { rep.fail("C05.output_kept", text, format!("SALIDA of system {} service {:?}: {:?} read, {:?} declared", id, srv, got, want)); }
+            }
+        }
+        Err(e) => rep.fail("C05.output_kept", text, format!("rejected: {}", e)),
+    }
+}
+
 /// hand-written systems (clause id per class): auxiliaries of a system whose only use is the fuel of a cogenerator
 pub fn c06_special(rep: &mut Rep) {
+    // a system with a negative id (fictitious / reference systems are numbered that way): its auxiliaries are counted like any other
+    {
+        let text = "1,CONSUMO,CAL,ELECTRICIDAD,100,40\n-1,CONSUMO,VEN,ELECTRICIDAD,40,40\n-1,AUX,4,4\n-2,CONSUMO,ACS,GASNATURAL,9,9\n-2,AUX,1,2";
+        rep.evals += 1;
+        match text.parse::<Components>() {
+            Ok(c) => match std::panic::catch_unwind(move || energy_performance(&c, &crate::factors("PENINSULA"), 0.0, 1.0, false)) {
+                Ok(Ok(ep)) => { let got = ep.balance_cr.get(&Carrier::ELECTRICIDAD).map(|b| b.used.epus_t.clone()).unwrap_or_default(); if !veq(&got, &[145.0, 86.0]) { rep.fail("C06.counted_in_balance", text, format!("EPB electricity use per step {:?}, declared uses + auxiliaries [145, 86]", got)); } }
+                Ok(Err(e)) => rep.fail("C06.counted_in_balance", text, format!("evaluation failed: {}", e)),
+                Err(_) => rep.fail("C06.counted_in_balance", text, "the evaluation panics: the auxiliaries of systems -1 and -2 are in no balance".into()),
+            },
+            Err(e) => rep.fail("C06.counted_in_balance", text, format!("rejected: {}", e)),
+        }
+    }
     // a single-service system with several AUX lines: every one of them gets the service
     for (text, srv) in [("1,CONSUMO,REF,ELECTRICIDAD,0,50,100\n1,AUX,0,3,6\n1,AUX,0,4,8\n2,CONSUMO,CAL,ELECTRICIDAD,50,20,0\n2,CONSUMO,ACS,ELECTRICIDAD,5,5,5\n2,SALIDA,CAL,200,50,0\n2,SALIDA,ACS,50,50,50\n2,AUX,5,2,1\n3,PRODUCCION,EL_INSITU,10,10,10", Service::REF),
                         ("4,CONSUMO,ACS,GASNATURAL,10,10\n4,AUX,1,1\n4,AUX,2,0\n4,AUX,0,0.5", Service::ACS)] {
@@ -408,6 +438,28 @@ pub fn c07(rep: &mut Rep, seed: u64) {
             }
         }
     }
+    // component sets built in code (not through the text parser): an auxiliary component that still has the service it is loaded with (NEPB)
+    for b in ["1,CONSUMO,ILU,ELECTRICIDAD,10,10\n1,PRODUCCION,EL_INSITU,40,5", "1,CONSUMO,CAL,GASNATURAL,50\n2,PRODUCCION,EL_INSITU,8", "1,CONSUMO,CAL,ELECTRICIDAD,5\n2,PRODUCCION,EL_COGEN,30\n2,CONSUMO,COGEN,GASNATURAL,80"] {
+        let mut comps: Components = match b.parse() { Ok(c) => c, Err(_) => continue };
+        let n = comps.num_steps();
+        comps.data.push(Energy::Aux(EAux { id: 9, service: Service::NEPB, values: vec![3.0; n], comment: String::new() }));
+        for loc in ["PENINSULA", "CANARIAS"] {
+            let w = crate::factors(loc);
+            for (k, lm) in [(0.0f32, false), (1.0, true)] {
+                rep.evals += 1;
+                let (c1, c2, w1, w2) = (comps.clone(), comps.clone(), w.clone(), w.clone());
+                let full = std::panic::catch_unwind(move || energy_performance(&c1, &w1, k, 1.0, lm));
+                let st = std::panic::catch_unwind(move || energy_performance(&c2, &w2.clone().strip(&c2), k, 1.0, lm));
+                let text = format!("{}\n+ Energy::Aux {{ id: 9, service: NEPB, values: [3; {}] }} pushed in code", b, n);
+                match (full, st) {
+                    (Ok(Ok(a)), Ok(Ok(c))) => { let (x, y) = (a.balance.we.b, c.balance.we.b); if !(eq(x.ren, y.ren) && eq(x.nren, y.nren) && eq(x.co2, y.co2) && eq(a.rer, c.rer)) { rep.fail("C08.built_in_code", &text, format!("{}: stripped factors give B {} instead of {}", loc, y, x)); } }
+                    (Ok(Ok(_)), Ok(Err(e))) => rep.fail("C08.built_in_code", &text, format!("{}: evaluation succeeds with the full set and fails with the simplified set: {}", loc, e)),
+                    (Ok(_), Err(_)) => rep.fail("C08.built_in_code", &text, format!("{}: evaluation with the simplified set panics", loc)),
+                    _ => {}
+                }
+            }
+        }
+    }
     // unusable sets are rejected: a carrier that has factors but no grid supply factor
     for bad in ["GASNATURAL, INSITU, A_RED, A, 1.0, 0.0, 0.0", "ELECTRICIDAD, INSITU, A_RED, A, 1.0, 0.0, 0.0\nGASNATURAL, RED, SUMINISTRO, A, 0.0, 1.2, 0.25",
         // a carrier without its grid supply factor next to complete ones, with / without the ambient and solar lines
@@ -457,13 +509,14 @@ pub fn c10(rep: &mut Rep, seed: u64) {
         "1,CONSUMO,CAL,EAMBIENTE,100,100\n1,PRODUCCION,EAMBIENTE,100,100\n2,CONSUMO,ACS,EAMBIENTE,50,50\n3,CONSUMO,CAL,EAMBIENTE,30,0\n3,PRODUCCION,EAMBIENTE,30,0\n4,CONSUMO,ACS,EAMBIENTE,7,9\n1,CONSUMO,CAL,ELECTRICIDAD,40,40\n2,CONSUMO,ACS,ELECTRICIDAD,20,20\n5,CONSUMO,ACS,TERMOSOLAR,5,5\n5,PRODUCCION,TERMOSOLAR,5,5\n6,CONSUMO,ACS,TERMOSOLAR,5,5",
         // one service's output declared in several lines
         "1,CONSUMO,CAL,ELECTRICIDAD,100,50\n1,CONSUMO,ACS,ELECTRICIDAD,20,20\n1,SALIDA,CAL,450,200\n1,SALIDA,ACS,80,80\n1,SALIDA,CAL,150,100\n1,AUX,40,20",
+        "1,CONSUMO,ACS,ELECTRICIDAD,100\n1,CONSUMO,ACS,EAMBIENTE,150\n2,CONSUMO,ACS,TERMOSOLAR,60",
     ];
     let sig = |t: &str| -> Result<Vec<f32>, String> {
         let c: Components = t.parse().map_err(|e| format!("{}", e))?;
         let w = crate::factors("PENINSULA");
         let ep = energy_performance(&c, &w, 0.5, 2.0, true).map_err(|e| format!("{}", e))?;
         let b = &ep.balance;
-        let mut v = vec![b.used.epus, b.used.nepus, b.prod.an, b.del.an, b.exp.an, b.we.a.ren, b.we.a.nren, b.we.b.ren, b.we.b.nren, b.we.b.co2, ep.rer, ep.rer_nrb];
+        let mut v = vec![b.used.epus, b.used.nepus, b.prod.an, b.del.an, b.exp.an, b.we.a.ren, b.we.a.nren, b.we.b.ren, b.we.b.nren, b.we.b.co2, ep.rer, ep.rer_nrb, ep.rer_onst];
         for s in Service::SERVICES_ALL {
             v.push(b.used.epus_by_srv.get(&s).copied().unwrap_or(0.0));
             v.push(b.we.b_by_srv.get(&s).map(|r| r.nren).unwrap_or(0.0));
@@ -589,6 +642,18 @@ pub fn c16(rep: &mut Rep, seed: u64) {
             }
         }
         if rep.evals % 301 == 2 && rep.samples.len() < 4 { rep.samples.push(json!({"components": text})); }
+    }
+    // ---- long lines of an unknown kind with non-ASCII text (error paths that quote the line)
+    for pad in 0..70usize {
+        for tail in ["calefacci\u{f3}n (COP 3) \u{e1}\u{e9}\u{ed}\u{f3}\u{fa} \u{f1}\u{f1}\u{f1}\u{f1}\u{f1}\u{f1}\u{f1}\u{f1}", "\u{4e2d}\u{6587}\u{4e2d}\u{6587}\u{4e2d}\u{6587}\u{4e2d}\u{6587}\u{4e2d}\u{6587}\u{4e2d}\u{6587}\u{4e2d}\u{6587}"] {
+            rep.evals += 1;
+            let text = format!("2, CONSUM0, CAL, ELECTRICIDAD, 16.39, 13.11 #{}{}\n1,CONSUMO,CAL,ELECTRICIDAD,1,1", "x".repeat(pad), tail);
+            let t2 = text.clone();
+            if panic::catch_unwind(move || { let _ = t2.parse::<Components>(); }).is_err() { rep.fail("C16.no_panic", &text, "the components parser panicked on a long line of unknown kind with non-ASCII text".into()); }
+            let ftext = format!("ELECTRICIDAD, REDD, SUMINISTRO, A, 0.4, 2.0, 0.3 #{}{}", "x".repeat(pad), tail);
+            let t3 = ftext.clone();
+            if panic::catch_unwind(move || { let _ = t3.parse::<Factors>(); let _ = cte::wfactors_from_str(&t3, UserWF { red1: None, red2: None }, cte::CTE_USERWF); }).is_err() { rep.fail("C16.no_panic", &ftext, "the factors parser panicked on a long malformed line with non-ASCII text".into()); }
+        }
     }
     // ---- metadata accessors, factor files and the small value parsers
     let metas = ["#META CTE_RED1: 0.5", "#META CTE_RED1: NaN", "#META CTE_RED1: 0.1, 0.2", "#META CTE_RED1: 0.1, 0.2, 0.3, 0.4", "#META CTE_RED2: ", "#META CTE_RED2: a, b, c", "#META CTE_RED1: { ren: 1 }",
